@@ -767,7 +767,7 @@ def eval_int(f, e, env, depth=0):
     return None
 
 
-def eval_expr(f, e, leaf, depth=0):
+def eval_expr(f, e, leaf, depth=0, signed=False):
     """constant folding of an integer/boolean expression; leaf(stmt) supplies the value of a variable reference or call (int) or
     None.  Comparisons and logical operators give 0/1.  None when something is not understood or an intermediate is negative
     (the callers reason about unsigned sizes; a wrap is never folded silently)."""
@@ -775,25 +775,28 @@ def eval_expr(f, e, leaf, depth=0):
         return None
     raw = f.s(e)
     if raw is not None and raw.get('cv') is not None:           # folded by the compiler (a cast around a constant carries the value)
-        return raw['cv'] if raw['cv'] >= 0 else None
+        return raw['cv'] if (raw['cv'] >= 0 or signed) else None
     st = f.s(f.strip_casts(e))
     if st is None:
         return None
     k = st['k']
     if st.get('cv') is not None and k != 'DeclRefExpr':
-        return st['cv'] if st['cv'] >= 0 else None
+        return st['cv'] if (st['cv'] >= 0 or signed) else None
     v = leaf(st)
     if v is not None:
         return v
     if k in ('ParenExpr', 'ExprWithCleanups', 'MaterializeTemporaryExpr', 'CXXBindTemporaryExpr', 'ConstantExpr'):
-        return eval_expr(f, st['ch'][0], leaf, depth + 1)
+        return eval_expr(f, st['ch'][0], leaf, depth + 1, signed)
+    if k == 'UnaryOperator' and st.get('op') == '-' and signed:
+        v = eval_expr(f, st['ch'][0], leaf, depth + 1, signed)
+        return None if v is None else -v
     if k == 'UnaryOperator' and st.get('op') == '!':
-        v = eval_expr(f, st['ch'][0], leaf, depth + 1)
+        v = eval_expr(f, st['ch'][0], leaf, depth + 1, signed)
         return None if v is None else int(not v)
     if k in CALL_KINDS and st.get('fn') in ('__builtin_expect',) and st.get('args'):
-        return eval_expr(f, st['args'][0], leaf, depth + 1)
+        return eval_expr(f, st['args'][0], leaf, depth + 1, signed)
     if k == 'BinaryOperator':
-        a, b = eval_expr(f, st['ch'][0], leaf, depth + 1), eval_expr(f, st['ch'][1], leaf, depth + 1)
+        a, b = eval_expr(f, st['ch'][0], leaf, depth + 1, signed), eval_expr(f, st['ch'][1], leaf, depth + 1, signed)
         op = st.get('op')
         if op == '&&' and (a == 0 or b == 0):
             return 0
@@ -808,7 +811,7 @@ def eval_expr(f, e, leaf, depth=0):
         if r is None:
             return None
         v = r()
-        return v if v is not None and v >= 0 else None
+        return v if v is not None and (v >= 0 or signed) else None
     return None
 
 
